@@ -178,47 +178,10 @@ var c13MapRangeTriage = map[string]string{
 
 func c13MapRanges(c *Ctx, rule string, roots []*ssa.Function, stopAt []string, triage map[string]string) {
 	_, order := c.Reach(roots, stopAt)
-	found := map[string]int{}
-	pos := map[string]string{}
-	for _, fn := range order {
-		name := funcShortName(fn)
-		for _, b := range fn.Blocks {
-			for _, in := range b.Instrs {
-				r, ok := in.(*ssa.Range)
-				if !ok {
-					continue
-				}
-				if _, isMap := r.X.Type().Underlying().(*types.Map); !isMap {
-					continue
-				}
-				found[name]++
-				if pos[name] == "" {
-					pos[name] = c.P.InstrPos(in)
-				}
-			}
-		}
-	}
-	var names []string
-	for n := range found {
-		names = append(names, n)
-	}
-	sort.Strings(names)
-	for _, n := range names {
-		construct := "maprange:" + n
-		if reason, ok := triage[n]; ok {
-			c.add("determ", rule, construct, Exception, pos[n], fmt.Sprintf("%d map range(s), triaged order-insensitive: %s", found[n], reason))
-		} else {
-			c.add("determ", rule, construct, Violated, pos[n], fmt.Sprintf("%s ranges over a map (%d site(s)) on a replicated apply path and is not in the triaged order-insensitive table", n, found[n]))
-		}
-	}
-	for n := range triage {
-		if found[n] == 0 {
-			c.add("determ", rule, "maprange:"+n, Undecided, "", "triage entry is stale: the function is no longer in the closure or no longer ranges over a map")
-		}
-	}
-	if len(names) == 0 {
-		c.add("determ", rule, "maprange:none", Held, "", fmt.Sprintf("no map range in %d reachable function(s)", len(order)))
-	}
+	// normalizeOwnedHashSlots counts as a sorter of its argument: decided right here
+	norm := c.Fn(c13fsm + "normalizeOwnedHashSlots")
+	c.Guard(rule, norm, AnyRet{}, "after: sort.Slice(*)")
+	c.MapRanges(rule, order, triage, map[string]int{"pkg/db/meta.Batch.Commit$2": 2}, []string{c13fsm + "normalizeOwnedHashSlots"})
 }
 
 // ---------------------------------------------------------------------------
